@@ -157,7 +157,7 @@ Section Loop.
        s_src := sa; s_dst := dest; s_next := nx; s_waitcts := w; s_nb := 0 |}.
 
   Definition envA (a : node) : Prop :=
-    n_rcv a = [] /\ n_timers a = [] /\ n_cmdt_iv a = None /\ n_subs a = n_subs A0 /\ n_cas a = n_cas A0.
+    n_rcv a = [] /\ n_timers a = [] /\ n_cmdt_iv a = None /\ n_subs a = n_subs A0 /\ n_cas a = n_cas A0 /\ n_maxp a = n_maxp A0.
   Definition envB (b : node) : Prop :=
     n_snd b = [] /\ n_timers b = [] /\ n_subs b = n_subs B0 /\ n_cas b = n_cas B0 /\ n_maxp b = n_maxp B0.
 
@@ -169,7 +169,7 @@ Section Loop.
   Proof. unfold pv. lia. Qed.
 
   Lemma acceptsA a : envA a -> accepts a sa = true.
-  Proof. intros (_ & _ & _ & Es & Ec). destruct HA as (_ & _ & _ & _ & Ha & _).
+  Proof. intros (_ & _ & _ & Es & Ec & _). destruct HA as (_ & _ & _ & _ & Ha & _).
     unfold accepts, ecu_acceptable in *. rewrite Es, Ec. exact Ha. Qed.
   Lemma acceptsB b : envB b -> accepts b dest = true.
   Proof. intros (_ & _ & Es & Ec & _). destruct HB as (_ & _ & _ & Hb & _).
@@ -328,7 +328,8 @@ Section Loop.
   (* the end: nothing queued, no session on either side, p delivered once, the wire carried RTS, DT_1 .. DT_n *)
   Definition ShDone (s : net) : Prop :=
     qa s = [] /\ qb s = [] /\ n_snd (na s) = [] /\ n_rcv (na s) = [] /\ n_snd (nb s) = [] /\ n_rcv (nb s) = [] /\
-    evb s = delivered /\ wab s = rts :: dtfs sa dest p 0 np.
+    evb s = delivered /\ wab s = rts :: dtfs sa dest p 0 np /\
+    (t0 <= clk s /\ envA (na s) /\ envB (nb s)).
 
   Lemma envA_wake_snd a X : envA a -> envA (wake (set_snd a X)).
   Proof. intros E. exact E. Qed.
@@ -469,9 +470,12 @@ Section Loop.
     destruct (job_A_finished (na s) nx w Ea Hs) as (ra & Hja). rewrite Hja.
     destruct Eb as (Bs & Bt & Bsub & Bcas & Bm).
     rewrite (job_idle (nb s) Hr Bs Bt). cbn [txs flat_map evs filter].
-    destruct Ea as (Ar & _).
+    pose proof (envA_snd (na s) [] Ea) as Ea'. destruct Ea as (Ar & _).
     unfold ShDone. cbn [na nb qa qb clk evb wab n_snd n_rcv set_snd].
-    repeat split; try assumption; try reflexivity; rewrite ?app_nil_r; assumption.
+    split; [reflexivity|]. split; [reflexivity|]. split; [reflexivity|]. split; [exact Ar|]. split; [exact Bs|]. split; [exact Hr|].
+    split; [rewrite app_nil_r; exact Hev|]. split; [rewrite app_nil_r; exact Hw|].
+    split; [|split; [exact Ea'|repeat split; assumption]].
+    destruct (_ && _ && _); lia.
   Qed.
 
   (* ---- from the RTS to the end *)
@@ -509,7 +513,7 @@ Section Loop.
     cbn [txs flat_map evs filter app].
     unfold ShRts, common. cbn [na nb qa qb clk evb wab].
     split; [split; [reflexivity|split]|].
-    - unfold envA. cbn [n_rcv n_timers n_cmdt_iv n_subs n_cas wake set_snd]. repeat split; assumption.
+    - unfold envA. cbn [n_rcv n_timers n_cmdt_iv n_subs n_cas n_maxp wake set_snd]. repeat split; assumption || reflexivity.
     - unfold envB. repeat split; assumption.
     - split; [reflexivity|]. split; [reflexivity|]. split; [cbn [n_snd wake set_snd]; rewrite As; reflexivity|].
       split; [exact Br|]. split; reflexivity.
@@ -533,7 +537,39 @@ Theorem closed_loop_delivers prio sa dest dp pf p t0 A0 B0 :
             :: map (fun k => tp21_dt sa dest (dt_payload p (Z.of_nat k))) (seq 0 (npk (length p))).
 Proof.
   intros H1 H2 H3 H4 H5 H6 H7 HA HB pv num.
-  destruct (closed_loop prio sa dest dp pf p t0 A0 B0 H1 H2 H3 H4 H5 H6 H7 HA HB) as (j & H). exists j. exact H.
+  destruct (closed_loop prio sa dest dp pf p t0 A0 B0 H1 H2 H3 H4 H5 H6 H7 HA HB) as (j & H). exists j.
+  destruct H as (Q1 & Q2 & Q3 & Q4 & Q5 & Q6 & Q7 & Q8 & _). repeat split; assumption.
+Qed.
+
+(* T10.17: ... and the nodes are again as they were: the final state meets the premises of the theorem itself (same
+   configuration, same subscribers and CAs, nothing pending), so the pair can run its next transfer *)
+Theorem closed_loop_restores prio sa dest dp pf p t0 A0 B0 :
+  0 <= prio < 8 -> 0 <= sa < 255 -> 0 <= dest < 255 -> 0 <= pf < 240 -> 0 <= dp < 2 -> 8 < len p <= 1785 -> 0 < t0 ->
+  n_snd A0 = [] /\ n_rcv A0 = [] /\ n_timers A0 = [] /\ n_cmdt_iv A0 = None /\ accepts A0 sa = true /\ 1 <= n_maxp A0 ->
+  n_snd B0 = [] /\ n_rcv B0 = [] /\ n_timers B0 = [] /\ accepts B0 dest = true /\ 1 <= n_maxp B0 ->
+  let pv := dp * 65536 + pf * 256 in
+  let num := Z.of_nat (npk (length p)) in
+  exists j, let s := steps j (net_send (net0 A0 B0 t0) dp pf dest prio sa p) in
+    (qa s = [] /\ qb s = [] /\ t0 <= clk s /\
+     evb s = deliveries B0 7 pv sa dest p /\
+     wab s = tp21_rts sa dest prio pv (len p) num (Z.min (n_maxp A0) num)
+             :: map (fun k => tp21_dt sa dest (dt_payload p (Z.of_nat k))) (seq 0 (npk (length p)))) /\
+    (n_snd (na s) = [] /\ n_rcv (na s) = [] /\ n_timers (na s) = [] /\ n_cmdt_iv (na s) = None /\ accepts (na s) sa = true /\
+     1 <= n_maxp (na s)) /\
+    (n_snd (nb s) = [] /\ n_rcv (nb s) = [] /\ n_timers (nb s) = [] /\ accepts (nb s) dest = true /\ 1 <= n_maxp (nb s)) /\
+    n_maxp (na s) = n_maxp A0 /\ n_subs (nb s) = n_subs B0 /\ n_cas (nb s) = n_cas B0.
+Proof.
+  intros H1 H2 H3 H4 H5 H6 H7 HA HB pv num.
+  destruct (closed_loop prio sa dest dp pf p t0 A0 B0 H1 H2 H3 H4 H5 H6 H7 HA HB) as (j & H). exists j.
+  destruct H as (Q1 & Q2 & Q3 & Q4 & Q5 & Q6 & Q7 & Q8 & Qc & Ea & Eb). cbn zeta.
+  destruct Ea as (Ar & At & Ai & Asub & Acas & Am). destruct Eb as (Bs & Bt & Bsub & Bcas & Bm).
+  destruct HA as (_ & _ & _ & _ & Ha & HmA). destruct HB as (_ & _ & _ & Hb & HmB).
+  assert (HaA : accepts (na (steps j (net_send (net0 A0 B0 t0) dp pf dest prio sa p))) sa = true)
+    by (unfold accepts, ecu_acceptable in *; rewrite Asub, Acas; exact Ha).
+  assert (HaB : accepts (nb (steps j (net_send (net0 A0 B0 t0) dp pf dest prio sa p))) dest = true)
+    by (unfold accepts, ecu_acceptable in *; rewrite Bsub, Bcas; exact Hb).
+  split; [repeat split; assumption|]. split; [repeat split; try assumption; lia|]. split; [repeat split; try assumption; lia|].
+  repeat split; assumption.
 Qed.
 
 (* the premises are met, and the delivery is not an empty list: A with window 3, B with window 2 and a subscriber *)
